@@ -234,7 +234,7 @@ prop(
 )
 
 prop(
-    "C16", level="other", selftest=["block_diagonalization", "linalg", "second_quantization"],
+    "C16", level="other", selftest=["block_diagonalization", "linalg", "second_quantization", "kpm"],
     rules=[e7b.rule_diagonal_solver, e7b.rule_shared_eigenvalue_check, e7.rule_direct_solver, e7.rule_greens_function,
            e7.rule_solve_scalar, e7.rule_kpm_structure, e6.rule_projector, e4.rule_value_preserving, e11.rule_helpers],
     explanation=(
